@@ -269,7 +269,10 @@ class Z:
         v = self.value()
         if v is not None:
             return v
-        raise TypeError("symx.Z: symbolic integer used where a concrete index/size is needed (encoding gap)")
+        # range(z), a[z], np.zeros(z): fork over the feasible values (at most 64, see Ctx.decide_int)
+        if not _ctx.has_current():
+            raise TypeError("symx.Z: symbolic integer used as an index outside explore()")
+        return _ctx.current().decide_int(z3.ToReal(self.int_term()))
 
     def __int__(self):
         return self.__index__()
